@@ -83,6 +83,55 @@ def mutants_of(path):
         elif isinstance(node, ast.BinOp) and isinstance(node.op, (ast.Add, ast.Sub)):
             new = ast.BinOp(node.left, ast.Sub() if isinstance(node.op, ast.Add) else ast.Add(), node.right)
             add(node, "(" + ast.unparse(new) + ")", "+<->-")
+    # block-level operators (round 2 of the probe): one statement list at a time
+    def indent_of(stmt):
+        return " " * stmt.col_offset
+
+    def block_text(stmts, ind):
+        out = []
+        for st in stmts:
+            for k, line in enumerate(ast.unparse(st).split("\n")):
+                out.append((ind if (out or k) else "") + line)
+        return "\n".join(out) if out else "pass"
+
+    for node in ast.walk(tree):
+        for field in ("body", "orelse", "finalbody"):
+            stmts = getattr(node, field, None)
+            if not isinstance(stmts, list) or not stmts or not isinstance(stmts[0], ast.stmt):
+                continue
+            # swap two adjacent simple statements
+            for a, b2 in zip(stmts, stmts[1:]):
+                if isinstance(a, (ast.Expr, ast.Assign, ast.AugAssign)) and isinstance(b2, (ast.Expr, ast.Assign, ast.AugAssign)) \
+                        and not (isinstance(a, ast.Expr) and isinstance(a.value, ast.Constant)):
+                    ind = indent_of(a)
+                    out.append({"span": (a.lineno, a.col_offset, b2.end_lineno, b2.end_col_offset),
+                                "text": block_text([b2, a], ind), "what": "swap adjacent statements"})
+        if isinstance(node, ast.With) and node.body:
+            ind = indent_of(node)
+            out.append({"span": span(node), "text": block_text(node.body, ind), "what": "drop with (keep body)"})
+        if isinstance(node, ast.Try):
+            ind = indent_of(node)
+            if node.finalbody:
+                new = ast.Try(node.body, node.handlers, node.orelse, []) if (node.handlers or node.orelse) else None
+                txt = block_text([new], ind) if new is not None else block_text(node.body, ind)
+                out.append({"span": span(node), "text": txt, "what": "drop finally"})
+                new = ast.Try(node.body + node.finalbody, node.handlers, node.orelse, []) if node.handlers else None
+                if new is not None:
+                    out.append({"span": span(node), "text": block_text([new], ind), "what": "finally -> end of try body"})
+            for k, hnd in enumerate(node.handlers):
+                if isinstance(hnd.type, ast.Name) and hnd.type.id in ("BaseException", "Exception"):
+                    other = "Exception" if hnd.type.id == "BaseException" else "BaseException"
+                    add(hnd.type, other, "except %s -> %s" % (hnd.type.id, other))
+            if node.orelse:
+                new = ast.Try(node.body + node.orelse, node.handlers, [], node.finalbody)
+                out.append({"span": span(node), "text": block_text([new], ind), "what": "try-else -> into try body"})
+        if isinstance(node, ast.For) and isinstance(node.iter, ast.Call) and isinstance(node.iter.func, ast.Name) \
+                and node.iter.func.id == "range" and len(node.iter.args) == 1:
+            add(node.iter, "range(%s - 1)" % ast.unparse(node.iter.args[0]), "range(n) -> range(n - 1)")
+            add(node.iter, "range(%s + 1)" % ast.unparse(node.iter.args[0]), "range(n) -> range(n + 1)")
+        if isinstance(node, ast.Raise) and node.cause is not None:
+            new = ast.Raise(node.exc, None)
+            add(node, ast.unparse(new), "raise ... from e -> raise ...")
     return src, out
 
 
@@ -157,6 +206,7 @@ def main():
     ap.add_argument("--files", default="")
     ap.add_argument("--out", default="/tmp/mut")
     ap.add_argument("--props", default="")
+    ap.add_argument("--only", default="", help="keep only mutants whose `what` contains one of these comma-separated words")
     a = ap.parse_args()
     files = a.files.split(",") if a.files else DEFAULT_FILES
     props = a.props.split(",") if a.props else ["C%02d" % i for i in range(1, 21)]
@@ -168,6 +218,9 @@ def main():
         src, ms = mutants_of(p)
         for m in ms:
             allm.append((rel, src, m))
+    if a.only:
+        words = a.only.split(",")
+        allm = [x for x in allm if any(w in x[2]["what"] for w in words)]
     rng = random.Random(a.seed)
     rng.shuffle(allm)
     chosen = allm[:a.sample]
